@@ -98,6 +98,9 @@ def gen_node(r, names, depth):
         return ("text", gen_value(r, names, True))
     if c < 5:
         return gen_elem(r, names, depth)
+    if c == 5 and r.chance(1, 3):
+        # <include>: the included file's content, which sees the data but no scope variable of the includer
+        return ("include", gen_nodes(r, [], depth - 1) or [("text", ("mix", [("s", "inc")]))])
     if c == 5:
         return ("block", gen_nodes(r, names, depth - 1))
     if c in (6, 7):
@@ -124,30 +127,36 @@ def wx_attrs(attrs):
     return "".join(' %s="%s"' % (n, wx_value(v).replace('"', "&quot;")) for n, v in attrs)
 
 
-def wx_carrier(c, extra):
+def wx_carrier(c, extra, files=None):
     if c[0] == "block":
-        return "<block%s>%s</block>" % (extra, wx_nodes(c[1]))
-    return "<%s%s%s>%s</%s>" % (c[1], extra, wx_attrs(c[2]), wx_nodes(c[3]), c[1])
+        return "<block%s>%s</block>" % (extra, wx_nodes(c[1], files))
+    return "<%s%s%s>%s</%s>" % (c[1], extra, wx_attrs(c[2]), wx_nodes(c[3], files), c[1])
 
 
-def wx_nodes(ns):
-    return "".join(wx_node(n) for n in ns)
+def wx_nodes(ns, files=None):
+    """WXML of the nodes; included files are added to `files` (name -> source)"""
+    return "".join(wx_node(n, files) for n in ns)
 
 
-def wx_node(n):
+def wx_node(n, files=None):
     k = n[0]
     if k == "text":
         return wx_value(n[1])
     if k == "elem":
-        return wx_carrier(n, "")
+        return wx_carrier(n, "", files)
     if k == "block":
-        return "<block>%s</block>" % wx_nodes(n[1])
+        return "<block>%s</block>" % wx_nodes(n[1], files)
+    if k == "include":
+        name = "inc%d" % len(files)
+        files[name] = None
+        files[name] = wx_nodes(n[1], files)
+        return '<include src="/%s"/>' % name
     if k == "cond":
         out = []
         for i, (c, car) in enumerate(n[1]):
-            out.append(wx_carrier(car, ' wx:%s="%s"' % ("if" if i == 0 else "elif", wx_value(c))))
+            out.append(wx_carrier(car, ' wx:%s="%s"' % ("if" if i == 0 else "elif", wx_value(c)), files))
         if n[2] is not None:
-            out.append(wx_carrier(n[2], " wx:else"))
+            out.append(wx_carrier(n[2], " wx:else", files))
         return "".join(out)
     if k == "for":
         extra = ' wx:for="%s"' % wx_value(n[1])
@@ -157,7 +166,7 @@ def wx_node(n):
             extra += ' wx:for-index="%s"' % n[3]
         if len(n) > 5 and n[5] is not None:
             extra += ' wx:key="%s"' % n[5]
-        return wx_carrier(n[4], extra)
+        return wx_carrier(n[4], extra, files)
     raise ValueError(k)
 
 
@@ -184,6 +193,8 @@ def sx_node(n):
         return "(elem %s (attrs %s) %s)" % (q(n[1]), " ".join("(%s %s)" % (q(a), sx_value(v)) for a, v in n[2]), " ".join(sx_node(x) for x in n[3]))
     if k == "block":
         return "(block %s)" % " ".join(sx_node(x) for x in n[1])
+    if k == "include":
+        return "(include %s)" % " ".join(sx_node(x) for x in n[1])
     if k == "cond":
         parts = ["(br %s %s)" % (sx_value(c), sx_carrier_nodes(car)) for c, car in n[1]]
         if n[2] is not None:
@@ -401,8 +412,13 @@ def stream(chk, rng, count, bindmap=False):
                 D1[f] = copy.deepcopy(r.choice([x for x in LEAVES if x != D0[f]]))
                 cases.append((nodes, [D0, D1], [{"create": D0}, {"bindmap": f, "D": D1}]))
     cases += directed_cases()
-    srcs = [wx_nodes(n) for n, _, _ in cases]
-    groups = render.compile_templates([[["p", s]] for s in srcs])
+    srcs, groups_in = [], []
+    for n, _, _ in cases:
+        files = {}
+        main = wx_nodes(n, files)
+        srcs.append(main)
+        groups_in.append([["p", main]] + [[k, v] for k, v in files.items()])
+    groups = render.compile_templates(groups_in)
     reqs, keep = [], []
     for i, g in enumerate(groups):
         if "panic" in g or not isinstance(g.get("gen_groups"), str):
